@@ -379,13 +379,22 @@ func planC10(tier string) *Plan {
 		{roles: []int{0, 1}, amevs: []int{0}, maxs: []int{1}, reqs: []int{0, 1}, apis: []int{apiTimeout, apiNewTransaction, apiChangeView, apiPrepareRequest}, extra: map[string]int{"decided": 2}},
 		{roles: []int{1}, amevs: []int{0}, reqs: []int{1}, tx: [][2]int{{1, 0}}, apis: []int{apiTransaction}, extra: map[string]int{"decided": 2}},
 	}
+	// the pool may change between two readings inside one call (the "tiny race" the code itself mentions)
+	cells = append(cells, cellSpec{roles: []int{0, 1}, amevs: []int{0}, maxs: []int{1}, reqs: []int{0, 1}, apis: []int{apiTimeout, apiNewTransaction}, extra: map[string]int{"decided": 2, "poollater": 1}})
 	cells = append(cells, recCells([]int{1}, []int{0}, []int{0})...)
 	if tier == "thorough" {
 		cells = append(cells, cellSpec{roles: []int{0, 1, 2}, amevs: []int{0, 1}, maxs: []int{0, 1}, reqs: []int{0, 1}, apis: allApis})
 	}
 	p := stepPlan("C10", tier, want, cells, 900)
-	p.MustCover = []string{"step.end"}
-	p.MustAssert = []string{"C10.O1.armed", "C10.O1.epoch", "C10.O2.nonneg", "INV"}
+	for _, j := range resetJobs(tier) {
+		if j.Params["start"] == 1 || j.Params["ctype0"] == apiChangeView || j.Params["ctype0"] == apiPrepareRequest {
+			c := *j
+			c.Want = want
+			p.Jobs = append(p.Jobs, &c)
+		}
+	}
+	p.MustCover = []string{"step.end", "C10.O3.delivered", "C05.reset.end", "C05.reset.viewchanged"}
+	p.MustAssert = []string{"C10.O1.armed", "C10.O1.epoch", "C10.O2.nonneg", "C10.O3.rearmed", "INV"}
 	p.Explanation = "One-step symbolic execution with a model timer: after every API call an undecided validator's timer is armed for exactly (BlockIndex, ViewNumber) (Inv conjunct 14, asserted on the post-state, including nested view changes), every Timer.Reset is for the epoch current at that instant and has a non-negative duration (views <= 21, TimePerBlock <= 2^40 ns); OnTimeout for the current epoch re-arms the timer (the timer model is marked consumed before the call in the dedicated cells)."
 	return p
 }
@@ -446,6 +455,8 @@ func planC11(tier string) *Plan {
 		cellSpec{roles: []int{1}, amevs: am, reqs: []int{1}, tx: [][2]int{{1, 0}, {2, 1}, {2, 0}}, apis: []int{apiTransaction}},
 		cellSpec{roles: []int{1}, amevs: am, reqs: []int{1}, tx: [][2]int{{1, 0}}, apis: []int{apiTransaction}, extra: map[string]int{"ncache": 1, "ctype0": apiPrepareRequest, "csame": 1, "mntx": 1}},
 	)
+	// bookkeeping of requested transactions across view changes (what "requested" means later)
+	cells = append(cells, cellSpec{roles: []int{1}, amevs: am, reqs: []int{1}, tx: [][2]int{{1, 0}, {2, 1}}, apis: []int{apiChangeView, apiTimeout, apiPrepareResponse}})
 	cells = append(cells, recCells([]int{1, -1}, am, []int{0})...)
 	if tier == "thorough" {
 		cells = append(cells, cellSpec{roles: []int{2, 3}, amevs: am, maxs: []int{0, 1}, reqs: []int{0, 1}, apis: allApis})
@@ -470,6 +481,8 @@ func planC12(tier string) *Plan {
 	cells := []cellSpec{
 		{roles: roles, amevs: am, reqs: []int{1}, tx: [][2]int{{1, 0}, {2, 1}, {2, 2}}, apis: []int{apiTransaction}, extra: map[string]int{"lasttx": 1}},
 		{roles: roles, amevs: am, reqs: []int{1}, tx: [][2]int{{2, 0}}, apis: []int{apiTransaction}},
+		// the list of awaited hashes may name a hash twice (sendRecoveryRequest re-requests)
+		{roles: roles, amevs: am, reqs: []int{1}, tx: [][2]int{{1, 0}, {2, 1}}, apis: []int{apiTransaction}, extra: map[string]int{"lasttx": 1, "mdup": 1}},
 		// the view change and the next proposal inside the same call: a cached next-view proposal
 		{roles: roles, amevs: am, reqs: []int{1}, tx: [][2]int{{1, 0}}, apis: []int{apiTransaction}, extra: map[string]int{"lasttx": 1, "ncache": 1, "ctype0": apiPrepareRequest, "csame": 1, "mntx": 1}},
 		{roles: roles, amevs: am, reqs: []int{1}, tx: [][2]int{{1, 0}}, apis: []int{apiTransaction}, extra: map[string]int{"lasttx": 1, "ncache": 1, "ctype0": apiPrepareRequest, "csame": 1, "mntx": 2}},
@@ -504,8 +517,8 @@ func planC05(tier string) *Plan {
 	for _, j := range resetJobs(tier) {
 		p.Jobs = append(p.Jobs, j)
 	}
-	p.MustCover = []string{"C05.O2.decided", "event.processblock", "step.end", "C05.reset.end", "C05.O5.cached"}
-	p.MustAssert = []string{"C05.O2.unchanged", "C05.O1.flag", "C05.O3.height", "C05.O3.validators", "C05.O4.cache", "C05.O5.commit", "INV"}
+	p.MustCover = []string{"C05.O2.decided", "event.processblock", "step.end", "C05.reset.end", "C05.O5.cached", "C05.reset.viewchanged"}
+	p.MustAssert = []string{"C05.O2.unchanged", "C05.O1.flag", "C05.O3.height", "C05.O3.validators", "C05.O3.subscription", "C05.O4.cache", "C05.O5.commit", "INV"}
 	p.Explanation = "Two harnesses on the real code. (1) One step from an arbitrary DECIDED Inv state (blockProcessed) for every API: state fingerprint unchanged, no ProcessBlock/ProcessPreBlock, no timer call, no broadcast except a RecoveryMessage answering a RecoveryRequest; from undecided states at most one successful ProcessBlock per call and the flag is set with it. (2) Reset/Start from an arbitrary Inv state with a symbolic future-message cache, the ledger height jumping by any amount, the validator count and the own index changing: afterwards height = ledger+1, previous hash, validator list, own index, block times are the callbacks' values, view 0 unless M cached change views were replayed, tables sized to the new count holding only payloads of the entered height, flags cleared unless a block was processed in this very call, no cache inbox at or below the entered height (except re-cached higher-view payloads of that height), an admissible cached Commit/ChangeView of the entered height sits in its table."
 	p.Bounds["reset"] = "validator counts (old,new) in {(4,4),(4,7),(7,4),(1,4),(4,1)} (quick: first two), cache <= 2 payloads"
 	return p
@@ -540,10 +553,21 @@ func resetJobs(tier string) []*Job {
 							}
 							continue
 						}
+						mx := 0
+						if ct == apiCommit || ct == apiChangeView {
+							mx = 1 // the dynamic-block-time state (subscription flag) must not survive either
+						}
 						j := &Job{Pkg: dbftPkg, Entry: "H_reset", Solver: "z3-new", Want: []string{"C05"}, BudgetS: 900, Params: map[string]int{
-							"n": pr.n, "my": 1 % pr.n, "prim": 0, "amev": amev, "maxtpb": 0, "req": 1, "ntx": 0, "txmask": 0,
+							"n": pr.n, "my": 1 % pr.n, "prim": 0, "amev": amev, "maxtpb": mx, "req": 1, "ntx": 0, "txmask": 0,
 							"n2": pr.n2, "my2": my2, "start": start, "ncache": 1, "ctype0": ct, "mntx": 0}}
 						js = append(js, j)
+						if ct == apiChangeView && pr.n2 == 4 && my2 != 1 {
+							// M cached change views of the entered height: nested view change during Reset
+							q := &Job{Pkg: dbftPkg, Entry: "H_reset", Solver: "z3-new", Want: []string{"C05"}, BudgetS: 900, Params: map[string]int{
+								"n": pr.n, "my": 1 % pr.n, "prim": 0, "amev": amev, "maxtpb": 0, "req": 1, "ntx": 0, "txmask": 0,
+								"n2": pr.n2, "my2": my2, "start": start, "ncache": 3, "ctype0": ct, "ctype1": ct, "ctype2": ct, "mntx": 0, "chit": 1, "cfix": 1}}
+							js = append(js, q)
+						}
 					}
 				}
 			}
